@@ -94,18 +94,28 @@ def build_case(plan, world, home):
         pass
 
     # "any other exception": the class must not matter (OS errors, look-up errors, custom classes, ...)
+    # ... and the program's own exception classes, which have a meaning only at ONE kind of step (ParseException: act/parse;
+    # SingleInstructionInvalidArgumentException: instruction parsing) and are "any other exception" everywhere else
+    from exactly_lib.test_case.phases.act.actor import ParseException
+    from exactly_lib.section_document.element_parsers.instruction_parser_exceptions import \
+        SingleInstructionInvalidArgumentException
     exn_classes = [ValueError, FileNotFoundError, KeyError, PermissionError, RuntimeError, PlannedError, OSError, IndexError,
-                   NotImplementedError, AssertionError, UnicodeDecodeError, TimeoutError]
+                   NotImplementedError, AssertionError, UnicodeDecodeError, TimeoutError, ParseException,
+                   SingleInstructionInvalidArgumentException]
     exn_counter = [plan.get('exn_offset', 0)]
 
-    def raise_if(b):
+    def raise_if(b, at_act_parse=False):
         if b == 'BHardRaise':
             raise HardErrorException(msg)
         if b == 'BExn':
             cls = exn_classes[exn_counter[0] % len(exn_classes)]
             exn_counter[0] += 1
+            if cls is ParseException and at_act_parse:
+                cls = PlannedError  # at act/parse a ParseException is the documented way to report a syntax error
             if cls is UnicodeDecodeError:
                 raise UnicodeDecodeError('utf-8', b'\xff', 0, 1, 'planned exception')
+            if cls is ParseException:
+                raise ParseException(msg)
             raise cls('planned exception')
 
     def rec(p, k, i, prev=None):
@@ -235,7 +245,7 @@ def build_case(plan, world, home):
             b = beh('Act', 0, 'SActParse')
             if b == 'BSyntax':
                 raise ParseException(msg)
-            raise_if(b)
+            raise_if(b, at_act_parse=True)
             return Atc()
 
     def section(p):
